@@ -203,6 +203,9 @@ func (m *MatchHTTP) handleHttp2WithPriorKnowledge(reader io.Reader, req *http.Re
 	}
 
 	framer := http2.NewFramer(io.Discard, reader)
+	// the framer allocates the payload a frame header announces (up to 16 MiB) before it reads it;
+	// a frame that doesn't fit into the matching buffer can't be matched anyway
+	framer.SetMaxReadFrameSize(layer4.MaxMatchingBytes)
 
 	// read the first 10 frames until we get a headers frame (skipping settings, window update & priority frames)
 	var frame http2.Frame
